@@ -70,6 +70,44 @@ theorem stream_replay_faithful (F : FloatCodec) (zero : Int) (recTime : Bool) (p
   rw [hr]
   exact specStream_replay zero recTime ps G
 
+/-! ### Field values through the line protocol (the part of the codec that the model makes concrete) -/
+
+/-- **types_preserved_stream (strings)**: a string field value — ANY bytes: quotes, backslashes (also trailing),
+commas, spaces, `=`, unicode — is written by `appendField`/`EscapeStringField` and read back by the value parser as
+the same STRING. (Line feeds included at this level; they break the framing one level up.) -/
+theorem string_field_roundtrip (F : FloatCodec) (s : Bytes) :
+    unescStr (escStr s) = s ∧ parseFV F (renderFV F (.str s)) = some (.str s) :=
+  ⟨unescStr_escStr s, parseFV_render_str F s⟩
+
+/-- **types_preserved_stream (booleans)**. Integers (`<digits>i`) and floats (`strconv` text) are covered by the
+hypothesis `LPLaw` of `stream_replay_faithful` and by the correspondence run, not by a theorem of their own. -/
+theorem bool_field_roundtrip (F : FloatCodec) (b : Bool) : parseFV F (renderFV F (.bool b)) = some (.bool b) :=
+  parseFV_render_bool F b
+
+/-- Full statement for all four field types (stated, not proved: the int case needs a decimal round-trip lemma, the
+float case is `strconv`). -/
+def value_roundtrip_stmt : Prop :=
+  ∀ (F : FloatCodec), (∀ b, F.parse (F.fmt b) = some b) → ∀ v : FV,
+    (∀ i, v = .int i → -(2:Int)^63 ≤ i ∧ i < (2:Int)^63) → parseFV F (renderFV F v) = some v
+
+/-- A line feed reaches the recorded line only from the point's own strings (measurement, tag keys/values, field
+keys, string field values): the escaping functions never add or remove one, numbers and booleans have none. So the
+clause of finding `stream-newline-framing` (`SPoint.dirty`) is stated on the POINT, not on the encoded bytes. -/
+theorem line_clean_of_point (F : FloatCodec) (mult : Int) (p : SPoint) (hF : FloatTextClean F p)
+    (hd : p.dirty = false) : NL ∉ lineOf F mult p ∧ (lineOf F mult p).getLast? ≠ some CR :=
+  ⟨line_newline_free F mult p hF hd, line_last_not_CR F mult p⟩
+
+/-- **Stream replay is faithful, stated on the points**: for every list of points to none of which the finding's
+clause applies (no line feed in any string of the point, no carriage return at the end of db/rp) and whose lines fit
+the Scanner, in both clock modes, for every clock zero — given the external line-protocol law. -/
+theorem stream_replay_faithful_points (F : FloatCodec) (zero : Int) (recTime : Bool) (ps : List SPoint)
+    (G : List (Bytes × Bool × List Bytes))
+    (hlaw : LPLaw F 1 ps)
+    (hpts : ∀ p ∈ ps, FloatTextClean F p ∧ p.dirty = false ∧ FitsScanner F 1 p) :
+    specStream recTime ps G (sObs (streamRoundTrip F 1 zero recTime ps) G) = none :=
+  stream_replay_faithful F zero recTime ps G hlaw
+    (fun p hp => frame_clean_of_point F 1 p (hpts p hp).1 (hpts p hp).2.1 (hpts p hp).2.2)
+
 /-! Non-vacuity: the hypotheses of `stream_replay_faithful` hold of concrete awkward points — database `my db`,
 measurement `a,b c`, tag `k=1`=`v 2`, fields: float 1.5, int 2^53+1, string `q"\, x=é`, bool — with the model's own
 parser (so `LPLaw` is not an empty assumption), and the conclusion is then the full spec. -/
@@ -88,6 +126,9 @@ def exP2 : SPoint := ⟨[100], [114], [109], [], [([118], .int (-7))], 150000000
 
 example : LPLaw exF 1 [exP1, exP2] ∧ (∀ p ∈ [exP1, exP2], (frameOf exF 1 p).clean) := by
   unfold LPLaw; decide
+
+example : ∀ p ∈ [exP1, exP2], p.dirty = false ∧ FitsScanner exF 1 p := by
+  unfold FitsScanner; decide
 
 example : specStream false [exP1, exP2] [] (sObs (streamRoundTrip exF 1 42 false [exP1, exP2]) []) = none ∧
     ((streamRoundTrip exF 1 42 false [exP1, exP2]).items.map (·.p.time)) = [42, 47] := by
